@@ -243,14 +243,19 @@ class Ctx:
                                          "generated": r.generated, "distinct": r.distinct, "wall_s": round(wall, 1)})
         return r
 
-    def trace_validate(self, module, cfg, trace_path, timeout=900):
+    def trace_validate(self, module, cfg, trace_path, timeout=900, deque=False):
         """Validate an ndjson trace (recorded from the real code) against spec/<module>.
         The trace spec reads 'trace.ndjson' in its cwd; acceptance = high-water mark
         (TLCGet(1)) reached Len(Trace)+1, printed by the spec's POSTCONDITION.
         Returns (accepted, hwm) where hwm = number of events matched."""
         dst = os.path.join(self.specdir, "trace.ndjson")
         shutil.copyfile(trace_path, dst)
-        r = self.tlc(module, cfg, workers=1, timeout=timeout, expect_ok=False, label="trace")
+        env = None
+        if deque:
+            # depth-first queue: a trace specification with silent steps follows the trace instead of
+            # exploring breadth-first around it
+            env = {"JAVA_TOOL_OPTIONS": "-Xmx%s -Dtlc2.tool.queue.IStateQueue=StateDeque" % ("6g" if self.quick else "12g")}
+        r = self.tlc(module, cfg, workers=1, timeout=timeout, expect_ok=False, label="trace", env=env)
         m = re.search(r"TRACE hwm=(\d+) len=(\d+)", r.out)
         if not m:
             tail = "\n".join(l for l in r.out.splitlines())[-3000:]
